@@ -25,7 +25,7 @@ Proof. intros H. apply Z.pow_le_mono_r; lia. Qed.
 
 Lemma dur_good c n : good_cfg c -> dur c n = Z.min (cmax c) (cmin c * 2 ^ Z.of_nat n).
 Proof.
-  intros [[Hm0 Hm53] [[Hlt Hmax] Hf]]. unfold dur, backoff_dur. rewrite Hf.
+  intros [[Hm0 Hm53] [[Hlt Hmax] Hf]]. unfold dur, backoff_dur, backoff_clamp, eff_min, eff_max. rewrite Hf.
   destruct (cmin c <=? 0) eqn:E1; [lia|].
   destruct (cmax c <=? 0) eqn:E2; [lia|].
   destruct (cmax c <=? cmin c) eqn:E3; [lia|].
@@ -81,19 +81,33 @@ Qed.
 
 (* for EVERY configuration (defaults, rounding of huge Min, any factor) a wait stays within the
    effective bounds *)
+Lemma backoff_clamp_bounds mn' mx' d : mn' <= mx' -> mn' <= backoff_clamp mn' mx' d <= mx'.
+Proof.
+  intros H. unfold backoff_clamp.
+  destruct (max_int64_f <? d); [lia|].
+  destruct (d <? mn') eqn:E1; [lia|].
+  destruct (mx' <? d) eqn:E2; lia.
+Qed.
+
 Lemma backoff_dur_bounds mn mx f n :
   let mn' := if mn <=? 0 then default_min else mn in
   let mx' := if mx <=? 0 then default_max else mx in
   Z.min mn' mx' <= backoff_dur mn mx f n <= mx'.
 Proof.
-  cbv zeta. unfold backoff_dur.
-  set (mn' := if mn <=? 0 then default_min else mn).
-  set (mx' := if mx <=? 0 then default_max else mx).
-  destruct (mx' <=? mn') eqn:E; [lia|].
-  set (d := f64_of_Z mn' * (if f <=? 0 then 2 else f) ^ Z.of_nat n).
-  destruct (max_int64_f <? d); [lia|].
-  destruct (d <? mn') eqn:E1; [lia|].
-  destruct (mx' <? d) eqn:E2; lia.
+  cbv zeta. unfold backoff_dur. fold (eff_min mn) (eff_max mx).
+  destruct (eff_max mx <=? eff_min mn) eqn:E; [lia|].
+  pose proof (backoff_clamp_bounds (eff_min mn) (eff_max mx)
+                (f64_of_Z (eff_min mn) * (if f <=? 0 then 2 else f) ^ Z.of_nat n) ltac:(lia)). lia.
+Qed.
+
+(* with Jitter the wait is random, but whatever the random product is, it is kept within the
+   same bounds *)
+Lemma jittered_wait_within_bounds mn mx d :
+  Z.min (eff_min mn) (eff_max mx) <= backoff_dur_jitter mn mx d <= eff_max mx.
+Proof.
+  unfold backoff_dur_jitter.
+  destruct (eff_max mx <=? eff_min mn) eqn:E; [lia|].
+  pose proof (backoff_clamp_bounds (eff_min mn) (eff_max mx) d ltac:(lia)). lia.
 Qed.
 
 (* the Backoff object: the k-th Duration() after a Reset (or from new) is ForAttempt(k) *)
@@ -670,6 +684,70 @@ Proof.
   - subst sent. symmetry. apply firstn_len_app.
   - subst offered. symmetry. apply firstn_len_app.
 Qed.
+
+(* ---- pipelines of forwarders (the wrappers around the client) ---- *)
+
+Lemma exists_last_or_nil {A} (l : list A) : l = [] \/ exists l' x, l = l' ++ [x].
+Proof. destruct l as [|a l]; [left; reflexivity|]. right. destruct (exists_last (l := a :: l)) as [l' [x H]]; [discriminate|]. eauto. Qed.
+
+
+Lemma pipe_step_S q0 r i : pipe_step (q0 :: r) (S i) = q0 :: pipe_step r i.
+Proof. destruct q0 as [|m q0]; [|destruct r]; reflexivity. Qed.
+
+Lemma pipe_step_contents qs : forall i, pipe_contents (pipe_step qs i) = pipe_contents qs.
+Proof.
+  unfold pipe_contents.
+  induction qs as [|q0 r IH]; intros i; [destruct i; reflexivity|].
+  destruct i as [|i'].
+  - destruct q0 as [|m q0]; [destruct r; reflexivity|].
+    destruct r as [|q1 r]; [reflexivity|].
+    cbn [pipe_step rev]. rewrite !concat_app. cbn [concat]. rewrite !app_nil_r, <- !app_assoc. reflexivity.
+  - rewrite pipe_step_S. cbn [rev]. rewrite !concat_app, IH. reflexivity.
+Qed.
+
+Lemma pipe_run_contents xs : forall qs, pipe_contents (pipe_run qs xs) = pipe_contents qs.
+Proof.
+  induction xs as [|x xs IH]; intros qs; [reflexivity|].
+  cbn [pipe_run fold_left]. fold (pipe_run (pipe_step qs x) xs). rewrite IH. apply pipe_step_contents.
+Qed.
+
+Lemma pipe_init_contents n input : pipe_contents (pipe_init n input) = input.
+Proof.
+  unfold pipe_contents, pipe_init. cbn [rev]. rewrite concat_app. cbn [concat]. rewrite app_nil_r.
+  replace (concat (rev (repeat [] n))) with (@nil N); [reflexivity|].
+  induction n as [|n IH]; [reflexivity|]. cbn [repeat rev]. rewrite concat_app, <- IH. reflexivity.
+Qed.
+
+(* any number of forwarders in a row, any interleaving: nothing is lost, duplicated or reordered -
+   what has reached the sink is a prefix of the input *)
+Lemma pipeline_fifo stages input xs :
+  pipe_contents (pipe_run (pipe_init stages input) xs) = input /\
+  let sink := last (pipe_run (pipe_init stages input) xs) [] in
+  sink = firstn (length sink) input.
+Proof.
+  assert (H : pipe_contents (pipe_run (pipe_init stages input) xs) = input)
+    by (rewrite pipe_run_contents; apply pipe_init_contents).
+  split; [exact H|]. cbv zeta.
+  revert H. generalize (pipe_run (pipe_init stages input) xs) as qs. intros qs H.
+  destruct (exists_last_or_nil qs) as [-> | [qs' [q ->]]]; [reflexivity|].
+  rewrite last_last. unfold pipe_contents in H. rewrite rev_app_distr in H. cbn [rev app concat] in H.
+  subst input. symmetry. apply firstn_len_app.
+Qed.
+
+(* the decoding stage of pkg/status: after n messages taken, Status has received exactly the decodable
+   ones among the first n, in their order *)
+Lemma filt_run_spec ok n : forall pending out,
+  filt_run ok n (pending, out) = (skipn n pending, out ++ filter ok (firstn n pending)).
+Proof.
+  induction n as [|n IH]; intros pending out; [cbn; rewrite app_nil_r; reflexivity|].
+  destruct pending as [|m r]; cbn [filt_run filt_step fst snd].
+  - rewrite IH. destruct n; cbn; rewrite ?app_nil_r; reflexivity.
+  - rewrite IH. cbn [skipn firstn filter]. destruct (ok m); [rewrite <- app_assoc|]; reflexivity.
+Qed.
+
+Lemma status_stage_in_order ok n input :
+  filt_run ok n (input, []) = (skipn n input, filter ok (firstn n input)).
+Proof. rewrite filt_run_spec. reflexivity. Qed.
 
 (* and the pumps make progress: a read step with a pending frame delivers exactly that frame *)
 Lemma pump_read_delivers_next p m r :
